@@ -29,6 +29,16 @@ func keyCmp(name string) func(a, b Key) int {
 			}
 			return 0
 		}
+	case "ext": // natural order, EXTREME magnitudes: math.MinInt / 0 / math.MaxInt (negating MinInt overflows)
+		return func(a, b Key) int {
+			switch {
+			case a.C < b.C:
+				return math.MinInt
+			case a.C > b.C:
+				return math.MaxInt
+			}
+			return 0
+		}
 	default: // nat, coarse (coarse = many representatives R per class C)
 		return func(a, b Key) int {
 			switch {
@@ -55,6 +65,16 @@ func intCmp(name string) func(a, b int) int {
 				}
 			}
 			return d * 7
+		}
+	case "ext":
+		return func(a, b int) int {
+			switch {
+			case a < b:
+				return math.MinInt
+			case a > b:
+				return math.MaxInt
+			}
+			return 0
 		}
 	case "coarse":
 		return func(a, b int) int { return a/2 - b/2 }
@@ -242,6 +262,19 @@ func kvTreeJobs(prop string, q bool, add func(kind, id string, w int, s map[stri
 	for _, hm := range [][2]int{{32, pick(40, 48)}, {64, pick(70, 80)}, {128, pick(132, 144)}} {
 		id := fmt.Sprintf("btree%d.nat.n%d", hm[0], hm[1])
 		add("kv", id, hm[1]*hm[1], map[string]string{"c": "btree", "cmp": "nat"}, map[string]int{"m": hm[0], "n": hm[1], "rank": 1, "lite": 1})
+	}
+	// large trees under non-monotone histories (family.go churnJob)
+	cu := pick(48, 96)
+	for _, t := range []tb{{"rbt", 0, cu}, {"avl", 0, cu}, {"treemap", 0, cu}, {"treeset", 0, cu}, {"btree", 3, cu}, {"btree", 4, cu}, {"btree", 5, cu}, {"btree", 8, cu}} {
+		for _, c := range []string{"nat", "rev"} {
+			id := fmt.Sprintf("%s%s.%s.churn.u%d", t.c, map[bool]string{true: fmt.Sprint(t.m), false: ""}[t.m > 0], c, cu)
+			add("churn", id, cu*4, map[string]string{"c": t.c, "cmp": c}, map[string]int{"m": t.m, "u": cu})
+		}
+	}
+	// comparators that answer math.MinInt / 0 / math.MaxInt: a valid order whose results cannot be negated
+	for _, t := range []tb{{"rbt", 0, pick(9, 11)}, {"avl", 0, pick(9, 11)}, {"treemap", 0, pick(8, 10)}, {"treeset", 0, pick(8, 10)}, {"btree", 3, pick(11, 14)}, {"btree", 4, pick(11, 14)}} {
+		id := fmt.Sprintf("%s%s.ext.n%d", t.c, map[bool]string{true: fmt.Sprint(t.m), false: ""}[t.m > 0], t.n)
+		add("kv", id, t.n*t.n, map[string]string{"c": t.c, "cmp": "ext"}, map[string]int{"m": t.m, "n": t.n, "rank": 1})
 	}
 	for _, t := range trees {
 		for _, c := range []string{"nat", "rev", "coarse"} {
